@@ -39,6 +39,7 @@ def run(ctx):
     rule_forward(ctx)
     rule_query_siblings(ctx)
     rule_path_tree(ctx)
+    rule_whole_selectors(ctx)
     rule_new_version(ctx)
     rule_every_function(ctx, rule_id="C07.validate-first")
     rule_set_is_clear_then_add(ctx)
@@ -120,11 +121,15 @@ def rule_forward(ctx):
                     e = b.params.get(p)
                     c = key(rel, fi.qualname, "%s:%s" % (short(call, 70), p))
                     if e is None:
-                        # omitted: the delegate's default must equal the API default
+                        # omitted: the delegate then works with ITS default whatever the caller passed -- equal defaults make
+                        # the two agree only for callers who pass nothing.  Allowed only inside a branch that pins the
+                        # parameter to the delegate's default (`if p is None: delegate(...)`).
                         da, dc = fi.defaults().get(p), t.func.defaults().get(p)
-                        ok = da is not None and dc is not None and norm(da) == norm(dc)
-                        # inside a branch that fixes the parameter's value the default may stand in for it
-                        run.check(ok, R, c, "parameter `%s` is not passed to %s and the defaults differ" % (p, t.func.id),
+                        pinned = dc is not None and any(
+                            pol and norm(tt) in ("%s is %s" % (p, norm(dc)), "%s == %s" % (p, norm(dc))) for tt, pol, _ in guard_chain(call))
+                        ok = pinned
+                        run.check(ok, R, c, "parameter `%s` of the API function is not passed on to %s: a caller's non-default "
+                                  "value is silently replaced by the delegate's default" % (p, t.func.id),
                                   file=rel, line=call.lineno, function=fi.qualname, expected="%s forwarded" % p,
                                   found="omitted (api default %s, delegate default %s)" % (
                                       norm(da) if da is not None else None, norm(dc) if dc is not None else None))
@@ -221,6 +226,55 @@ def rule_path_tree(ctx):
                           line=c.lineno, function=fi.qualname, expected="%s.startswith(<other> + '.')" % a, found=norm(c))
     if n < 4:
         raise AnalysisError("granular queries: expected 4 ancestor/descendant tests, found %d" % n)
+
+
+def _is_selector_list(e, params):
+    """expression denoting a list of selector strings: the `selectors` parameter, <m>['selectors'], <m>.get('selectors', ..)"""
+    if isinstance(e, ast.Name):
+        return e.id == "selectors" and e.id in params
+    if isinstance(e, ast.Subscript) and isinstance(e.slice, ast.Constant) and e.slice.value == "selectors":
+        return True
+    if isinstance(e, ast.Call) and isinstance(e.func, ast.Attribute) and e.func.attr == "get" and e.args \
+            and isinstance(e.args[0], ast.Constant) and e.args[0].value == "selectors":
+        return True
+    return False
+
+
+def rule_whole_selectors(ctx):
+    """Selectors are compared as whole strings (==, membership in a LIST of selectors, startswith(x + '.')).  `a in b`
+    with b a single selector string is a substring test: 'name' then matches a marking on 'pattern_name'."""
+    run = ctx.run
+    prog = ctx.prog
+    R = "C07.whole-selectors"
+    n = 0
+    for mod in (GRANULAR, "stix2.markings.utils"):
+        for fi in sorted((f for f in prog.functions.values() if f.module.name == mod), key=lambda f: f.id):
+            params = fi.all_param_names()
+            strs = set()
+            for x in body_walk(fi.node):
+                if isinstance(x, (ast.For, ast.comprehension)) and isinstance(x.target, ast.Name) and _is_selector_list(x.iter, params):
+                    strs.add(x.target.id)
+                if isinstance(x, ast.Assign) and len(x.targets) == 1 and isinstance(x.targets[0], ast.Name) \
+                        and isinstance(x.value, ast.Subscript) and _is_selector_list(x.value.value, params) \
+                        and not isinstance(x.value.slice, ast.Slice):
+                    strs.add(x.targets[0].id)
+            for cmp_ in [x for x in body_walk(fi.node) if isinstance(x, ast.Compare)]:
+                for op, right in zip(cmp_.ops, cmp_.comparators):
+                    if not isinstance(op, (ast.In, ast.NotIn)):
+                        continue
+                    left = cmp_.left
+                    if not (isinstance(left, ast.Name) and left.id in strs):
+                        continue
+                    n += 1
+                    is_str = (isinstance(right, ast.Name) and right.id in strs) or (
+                        isinstance(right, ast.Subscript) and _is_selector_list(right.value, params) and not isinstance(right.slice, ast.Slice))
+                    run.check(not is_str, R, key(fi.module.relpath, fi.qualname, "membership:%s" % short(cmp_, 60)),
+                              "a selector is tested with `in` against ONE selector string (substring test) instead of a list of "
+                              "selectors: the marking of 'pattern_name' is touched when 'name' (or 'pattern') is addressed",
+                              file=fi.module.relpath, line=cmp_.lineno, function=fi.qualname,
+                              expected="<selector> in <list of selectors> / ==", found=short(cmp_))
+    if n < 2:
+        raise AnalysisError("granular markings: fewer than 2 selector membership tests found (%d)" % n)
 
 
 def rule_new_version(ctx):
